@@ -78,10 +78,11 @@ def leg(ctx, quick=None):
     beh, k = gen(ctx, 600 if quick else 12000)
     obs = os.path.join(ctx.scratch, "life.ndjson")
     s = V.harness(ctx, ["life", "-in", beh, "-out", obs, "-seed", ctx.seed, "-workers", V.NCPU])
-    missing = [h for h in NEED if not s["hits"].get(h)]
-    if missing:
-        raise V.Machinery("whole-chain leg: never observed %s (hits %s)" % (missing, s["hits"]))
     total = validate(ctx, obs, "life")
+    missing = [h for h in NEED if not s["hits"].get(h)]
+    if missing and not ctx.violations:
+        # (with violations reported the walks have left the model's path early: what they could not reach is no news)
+        raise V.Machinery("whole-chain leg: never observed %s (hits %s)" % (missing, s["hits"]))
     ctx.cov["whole_chain"] = {"behaviours": s["executed"], "steps": s["lines"], "observed": s["hits"]}
     ctx.say("whole chain: %d behaviours, %d steps through proxy -> authenticator -> identity provider" % (s["executed"], s["lines"]))
     return s
